@@ -356,3 +356,31 @@ Proof.
   assert (L := loop_safe g K v0 G strides Hst fuel cur s I Hcur). rewrite E in L. destruct L as [I' _].
   assert (A := i_lo _ _ _ _ I' i Hi). assert (B := i_mk _ _ _ _ I' (i + gS g) ltac:(lia)). lia.
 Qed.
+
+(* ------------------------------------------------------------------ the wrapper's stride table *)
+(* every flat stride the Python wrapper derives from a footprint with odd dimensions is an offset
+   (da, db) with |da| <= padding0, |db| <= padding1 in the padded plane — with [interior_step]:
+   current + strides[i] never leaves the plane for any interior current *)
+Lemma fp_offsets_bound fp o : Z.odd (zlen fp) = true -> Z.odd (width fp) = true ->
+  In o (fp_offsets fp) ->
+  - (zlen fp / 2) <= fst o <= zlen fp / 2 /\ - (width fp / 2) <= snd o <= width fp / 2.
+Proof.
+  intros O1 O2. apply Z.odd_spec in O1, O2. destruct O1 as [m1 E1]. destruct O2 as [m2 E2].
+  unfold fp_offsets. intros Hin. apply in_flat_map in Hin. destruct Hin as [a [Ha Hin]].
+  apply in_flat_map in Hin. destruct Hin as [b [Hb Hin]].
+  apply in_zrange in Ha, Hb.
+  destruct (fp_get fp a b && negb ((a =? zlen fp / 2) && (b =? width fp / 2))); cbn [In] in Hin; [|tauto].
+  destruct Hin as [<-|[]]. cbn [fst snd].
+  assert (zlen fp / 2 = m1) by (rewrite E1; symmetry; apply Z.div_unique with (r := 1); lia).
+  assert (width fp / 2 = m2) by (rewrite E2; symmetry; apply Z.div_unique with (r := 1); lia).
+  lia.
+Qed.
+
+Theorem prepare_strides_ok image mask fp : Z.odd (zlen fp) = true -> Z.odd (width fp) = true ->
+  Forall (stride_ok (prep_geom (prepare image mask fp))) (p_strides (prepare image mask fp)).
+Proof.
+  intros O1 O2. apply Forall_forall. intros st Hin. unfold prepare in Hin. cbn [p_strides] in Hin.
+  apply in_map_iff in Hin. destruct Hin as [o [<- Ho]].
+  destruct (fp_offsets_bound fp o O1 O2 Ho) as [B1 B2].
+  exists (fst o), (snd o). unfold prepare, prep_geom, gPW. cbn [p_H p_W p_p0 p_p1 gW gp0 gp1]. lia.
+Qed.
